@@ -561,6 +561,44 @@ def runOp (op : String) (args : List String) : String :=
         | .err => "err"
         | .panic => "panic")
     | none => "bad-op"
+  | "sig0.sign", [mb, alg, exp, inc, tag, signer, sg] =>
+    (match unhex mb, unhex signer, unhex sg with
+      | some mbuf, some signer, some sg =>
+        let f : MU.SigFields := ⟨alg.toNat?.getD 0, exp.toNat?.getD 0, inc.toNat?.getD 0, tag.toNat?.getD 0, signer⟩
+        (match MU.sigSignBuf mbuf f sg, MU.sigSignInput mbuf f with
+          | some out, some inp => s!"{hex out} {hex inp}"
+          | _, _ => "none")
+      | _, _, _ => "bad-op")
+  | "sig0.verify", [b, key, now] =>
+    (match unhex b, unhex key with
+      | some buf, some key =>
+        if buf.length < 12 then "short" else
+        (match sigWalk buf with
+          | .ok w =>
+            let v := MU.sigVerify buf key (now.toNat?.getD 0) (fun _ _ => true)
+            let vs := match v with | .accepted => "crypto" | .refused => "refused" | .panicked => "panic"
+            s!"{vs} {w.incept} {w.expire} {hex (sigHashInput buf w)} {hex (buf.drop w.sigend)}"
+          | .err => "refused-walk"
+          | .panic => "panic")
+      | _, _ => "bad-op")
+  | "tsig.generate", [mb, oid, tw] =>
+    (match unhex mb, unhex tw with
+      | some mbuf, some tw => hex (MU.tsigGenerateBuf mbuf (oid.toNat?.getD 0) tw)
+      | _, _ => "bad-op")
+  | "tsig.verify", [b, mac, timers, now] =>
+    (match unhex b, unhex mac with
+      | some msg, some mac =>
+        (match MU.stripTsig msg with
+          | .err => "striperr"
+          | .ok s =>
+            if s.found then
+              let v := MU.tsigVarsOf s 0
+              let verdict := MU.tsigVerifyM msg mac (timers == "1") (now.toNat?.getD 0) 0 (fun _ _ _ => true)
+              let vs := match verdict with | .accepted => "accepted" | .badTime => "badtime" | .badMac => "badmac" | .stripError => "striperr"
+              if vs == "striperr" then "striperr" else
+              s!"1 {hex (MU.stripDigest s mac (timers == "1") 0)} {hex (MU.fieldB s.body 0)} {hex (MU.fieldB s.body 4)} {MU.fieldN s.body 1} {v.fudge} {vs}"
+            else if mac.length == 1 then "striperr" else s!"0 {hex (tsigMsgPart s.msg 0)}")
+      | _, _ => "bad-op")
   | "sig0.class", [b] => match unhex b with
     | some buf => if buf.length < 12 then "short" else (match sigWalk buf with | .panic => "panic" | _ => "nopanic")
     | none => "bad-op"
